@@ -23,7 +23,9 @@ THEOREMS = ['C04_tref_split_invariance', 'C04_tref_split_invariance_moist', 'C04
             'C04_modal_moist_hyps_satisfiable', 'C04_no_vertical_advection_refuted', 'C04_tref_split_cloud_refuted',
             'C04_tref_split_invariance_R', 'C04_whole_state_is_assembly', 'C04_concrete_operators_linear',
             'C04_whole_state_temperature_invariance', 'C04_whole_state_divergence_invariance',
-            'C04_whole_state_vorticity_invariance', 'C04_whole_state_implicit_linear', 'C04_whole_state_resolvent']
+            'C04_whole_state_vorticity_invariance', 'C04_whole_state_implicit_linear', 'C04_whole_state_resolvent',
+            'C04_whole_state_hyps_satisfiable', 'C04_whole_state_resolvent_hyps_satisfiable', 'C04_whole_state_is_assembly_replay',
+            'C04_whole_state_split_invariance', 'C04_whole_state_split_hyps_satisfiable']
 LEVEL = 'proof'
 LEVEL_TEXT = ('machine-checked theorems (Coq) for every field, every layer count K>=1, all level sets, all column data and '
               'any two reference profiles with the same absolute temperature: the nodal temperature tendency '
@@ -44,9 +46,11 @@ LEVEL_TEXT = ('machine-checked theorems (Coq) for every field, every layer count
 LEVEL_NOTE = ('theorems are about the Gallina model Model/PrimEq.v (+ Model/Implicit.v, Model/Sigma.v); horizontal '
               'transforms are abstract linear operators in the column theorems; the whole-state model Model/PrimEqFull.v executes the '
               'complete composition (dry class, reference layout, include_vertical_advection=True, dense, method split) in exact rationals on '
-              'the implementation\'s own tables against the real explicit_terms / implicit_terms / implicit_inverse on tiny grids; not proved: the '
-              'last lift from the concrete-operator theorems to two executed states (needs to_nodal(1)=1 and range extensionality of the column '
-              'functions); the moist classes are not in the whole-state model; the model is also '
+              'the implementation\'s own tables against the real explicit_terms / implicit_terms / implicit_inverse on tiny grids; '
+              'C04_whole_state_split_invariance lifts the invariance to two executed states (every in-range coefficient of vorticity, divergence, '
+              'temperature, lnps; premises: four grid-exactness facts, to_nodal(one)=1, profiles agreeing beyond K; uses stdlib '
+              'functional_extensionality for nodal-column records; tracers not in the conclusion); the premises are shown satisfiable on a toy '
+              'zonal grid over Qc; the moist classes are not in the whole-state model; the model is also '
               'tied to the code by differential correspondence on nodal columns of recorded to_modal arguments; '
               'log(centers) enters as a table; scope: include_vertical_advection=True (the default) - with the option off '
               'the code drops the vertical advection of T\' but keeps that of T_ref (explicitly and inside H), so totals '
@@ -833,6 +837,10 @@ def r_whole_state(ctx, a):
     f = ws_state(a, grid, K)
     names = sorted(f['tracers'])
     one = np.zeros(grid.modal_shape); one[0, 0] = 2.0 * np.sqrt(np.pi)
+    # named table hypothesis H_one of C04_whole_state_split_invariance: to_nodal(onem00 v00) = 1 on the node range
+    err1 = A(np.asarray(grid.to_nodal(one)) - 1.0)
+    ctx.table_obligation('H_one: to_nodal of the (0,0)-only spectrum 2 sqrt(pi) is the constant one, on grid %s' % a['tgrid'],
+                         err1 <= 2.0 ** -36, {'error': err1})
     ls = np.log(vert.centers)
     eta = float(a.get('eta', 0.5))
     ints = [M, L, I, Jn, K, ntr]
